@@ -421,6 +421,9 @@ func (t *tr) binary(e *ast.BinaryExpr, en env) V {
 		op := map[token.Token]string{token.LSS: "<", token.LEQ: "≤", token.GTR: ">", token.GEQ: "≥"}[e.Op]
 		return V{"decide (" + x.L + " " + op + " " + y.L + ")", "Bool"}
 	case token.ADD, token.SUB, token.MUL:
+		if e.Op == token.ADD && x.T == "String" && y.T == "String" {
+			return V{"(" + x.L + " ++ " + y.L + ")", "String"}
+		}
 		if e.Op == token.ADD && (x.T == "Key" || y.T == "Key" || x.T == "String" || y.T == "String") {
 			// string concatenation building a map key out of fmt.Sprint parts and separators
 			part := func(v V) (string, bool) {
@@ -1157,7 +1160,7 @@ func (t *tr) stmts(list []ast.Stmt, en env, k cont) string {
 		pre, en2 := t.assign(s, en)
 		return pre + next(en2)
 	case *ast.IfStmt:
-		if t.u.JoinIfs && s.Else == nil && s.Init == nil && !hasJump(s.Body) {
+		if t.u.JoinIfs && s.Else == nil && s.Init == nil && !hasJump(s.Body) && !hasLoop(s.Body) {
 			// an `if` that only updates variables: translated as a join
 			//   let (vars) := if c then (… vars') else (vars)
 			// instead of duplicating the rest of the function into both branches
@@ -1386,7 +1389,14 @@ func (t *tr) mutate(call *ast.CallExpr, en env) (string, env, bool) {
 	return fmt.Sprintf("let %s : %s := %s\n", bv.lean, leanType(bv.t), upd), en, true
 }
 
+var opAssign = map[token.Token]token.Token{token.ADD_ASSIGN: token.ADD, token.SUB_ASSIGN: token.SUB, token.MUL_ASSIGN: token.MUL}
+
 func (t *tr) assign0(s *ast.AssignStmt, en env) (string, env) {
+	if op, ok := opAssign[s.Tok]; ok && len(s.Lhs) == 1 && len(s.Rhs) == 1 && identName(s.Lhs[0]) != "" {
+		// `x op= e` on a plain variable is `x = x op e`
+		s = &ast.AssignStmt{Lhs: s.Lhs, TokPos: s.TokPos, Tok: token.ASSIGN,
+			Rhs: []ast.Expr{&ast.BinaryExpr{X: s.Lhs[0], OpPos: s.TokPos, Op: op, Y: s.Rhs[0]}}}
+	}
 	if s.Tok != token.DEFINE && s.Tok != token.ASSIGN {
 		return t.failf("assignment operator %s", s.Tok), en
 	}
@@ -1776,6 +1786,22 @@ func hasJump(b *ast.BlockStmt) bool {
 	ast.Inspect(b, func(n ast.Node) bool {
 		switch n.(type) {
 		case *ast.ReturnStmt, *ast.BranchStmt:
+			found = true
+		case *ast.FuncLit:
+			return false
+		}
+		return !found
+	})
+	return found
+}
+
+// hasLoop: a loop is translated to a match on `Loop.ret`/`Loop.done`, whose first arm has the type
+// of the enclosing function's continuation — it cannot sit inside a join
+func hasLoop(b *ast.BlockStmt) bool {
+	found := false
+	ast.Inspect(b, func(n ast.Node) bool {
+		switch n.(type) {
+		case *ast.RangeStmt, *ast.ForStmt:
 			found = true
 		case *ast.FuncLit:
 			return false
@@ -2689,25 +2715,53 @@ func recvPrefix(u *Unit) string {
 	return ""
 }
 
-// groupDeps: which generated files a group imports
-var groupDeps = map[string][]string{
-	"Pure":     nil,
-	"Msgs":     {"Pure"},
-	"Bids":     {"Pure"},
-	"Auctions": {"Pure"},
-	"Settle":   {"Pure"},
-	"Match":    {"Pure"},
-	"Payout":   {"Pure"},
-	"Genesis":  {"Pure", "Msgs"},
-	"Import":   {"Pure"},
-	"Export":   {"Pure"},
-	"Getters":  {"Pure"},
-	"Queries":  {"Pure"},
-	"Fees":     {"Pure"},
-	"Server":   {"Pure", "Msgs", "Bids", "Auctions"},
+// closureDecl: `func F(outer…) T { return func(inner…) (R…) { body } }` seen as the function
+// `F(outer…, inner…) (R…) { body }` — the module's invariants are written this way.  Anything else
+// (statements before the return, a named function returned) is not recognised.
+func closureDecl(fd funcDecl) (funcDecl, bool) {
+	d := fd.decl
+	if d.Body == nil || len(d.Body.List) != 1 {
+		return fd, false
+	}
+	rs, ok := d.Body.List[0].(*ast.ReturnStmt)
+	if !ok || len(rs.Results) != 1 {
+		return fd, false
+	}
+	fl, ok := rs.Results[0].(*ast.FuncLit)
+	if !ok {
+		return fd, false
+	}
+	params := &ast.FieldList{}
+	if d.Type.Params != nil {
+		params.List = append(params.List, d.Type.Params.List...)
+	}
+	if fl.Type.Params != nil {
+		params.List = append(params.List, fl.Type.Params.List...)
+	}
+	nd := &ast.FuncDecl{Name: d.Name, Recv: d.Recv, Type: &ast.FuncType{Params: params, Results: fl.Type.Results}, Body: fl.Body}
+	return funcDecl{decl: nd, file: fd.file}, true
 }
 
-var groupOrder = []string{"Pure", "Msgs", "Bids", "Auctions", "Settle", "Match", "Payout", "Server", "Genesis", "Import", "Export", "Getters", "Queries", "Fees"}
+// groupDeps: which generated files a group imports
+var groupDeps = map[string][]string{
+	"Pure":       nil,
+	"Msgs":       {"Pure"},
+	"Bids":       {"Pure"},
+	"Auctions":   {"Pure"},
+	"Settle":     {"Pure"},
+	"Match":      {"Pure"},
+	"Payout":     {"Pure"},
+	"Genesis":    {"Pure", "Msgs"},
+	"Import":     {"Pure"},
+	"Export":     {"Pure"},
+	"Getters":    {"Pure"},
+	"Queries":    {"Pure"},
+	"Fees":       {"Pure"},
+	"Server":     {"Pure", "Msgs", "Bids", "Auctions"},
+	"Invariants": {"Pure", "Getters"},
+}
+
+var groupOrder = []string{"Pure", "Msgs", "Bids", "Auctions", "Settle", "Match", "Payout", "Server", "Genesis", "Import", "Export", "Getters", "Queries", "Fees", "Invariants"}
 
 // translateUnits renders Generated/Code/<Group>.lean, one file per group of units.
 func (w *World) translateUnits() map[string]string {
@@ -2723,7 +2777,7 @@ func (w *World) translateUnits() map[string]string {
 		b.WriteString("  Each definition is the translation of the named Go function of /repo as it is NOW;\n")
 		b.WriteString("  Fundraising/Proofs/Tie/*.lean prove each equal to the hand-written model.\n-/\n")
 		b.WriteString("import Fundraising.Tables.GoSem\n")
-		if g == "Import" || g == "Export" || g == "Getters" || g == "Queries" {
+		if g == "Import" || g == "Export" || g == "Getters" || g == "Queries" || g == "Invariants" {
 			b.WriteString("import Fundraising.Tables.GoStore\n")
 		}
 		if g == "Match" || g == "Payout" {
@@ -2749,6 +2803,9 @@ func (w *World) translateUnits() map[string]string {
 				fd, ok = p.funcs[u.Func]
 			}
 			t := &tr{w: w, u: u, reg: reg}
+			if ok && u.Closure {
+				fd, ok = closureDecl(fd)
+			}
 			if !ok {
 				fmt.Fprintf(&b, "/-- %s%s: function not found in %s -/\ndef %s : Untranslated := ⟨\"function not found\"⟩\n\n", recvPrefix(u), u.Func, u.Pkg, u.Name)
 				u.failed = "function not found"
